@@ -6,6 +6,7 @@ import Driver.Ops.Data
 import Driver.Ops.Disk
 import Driver.Ops.Envelope
 import Driver.Ops.Policy
+import Driver.Ops.Pool
 import Driver.Ops.Proxy
 import Driver.Ops.Relay
 import Driver.Ops.Reply
@@ -23,6 +24,7 @@ def dispatch (line : String) : String :=
   | "disk" :: rest => diskOp rest
   | "envelope" :: rest => envelopeOp rest
   | "policy" :: rest => policyOp rest
+  | "pool" :: rest => poolOp rest
   | "proxy" :: rest => proxyOp rest
   | "relay" :: rest => relayOp rest
   | "reply" :: rest => replyOp rest
